@@ -126,17 +126,17 @@ PROPS["C06"] = {
   "assumptions": ["the attacker does not know the credentials/keys (cryptography outside contracts)"],
 }
 PROPS["C07"] = {
-  "units": ["dec", "framer", "engine", "framebatch"],
+  "units": ["dec", "framer", "engine", "framebatch", "command"],
   "kani_quick": [], "kani_thorough": ["vk_peek_frame_len"],
   "claim": "Per-function totality, proved for ALL inputs: the four ZMTP decoders never overflow/index out of bounds, reject a frame of limit+1 bytes and accept one of exactly the limit (Err iff oversize), and return None without consuming or growing anything for an incomplete frame; "
            "every Verus-generated safety obligation (arithmetic, indices, slices, callee preconditions = documented panic conditions of bytes/VecU8) of the engine handlers is discharged, every decode error becomes PeerError + phase Closed, a closed engine stays closed.",
-  "level_note": "Not covered: handshake timeout pacing, connection-slot release, 'socket and other connections keep working' (actor/system level), CURVE/Noise metadata parsers, READY property parser (unit command when built), io_uring backend.",
+  "level_note": "Not covered: handshake timeout pacing, connection-slot release, 'socket and other connections keep working' (actor/system level), CURVE/Noise metadata parsers, io_uring backend. The READY metadata parser (ZmtpReady::parse_properties) and ZmtpCommand::parse are proved total for every byte sequence in unit command.",
   "technique": "contract-based deductive verification (Verus on extracted real functions); Kani complete harness for the header path as cross-check",
   "trusted_base": ENGINE_TRUSTED,
   "assumptions": ["allocation failure and stack overflow are out of scope"],
 }
 PROPS["C19"] = {
-  "units": ["engine", "egress"],
+  "units": ["engine", "egress", "command"],
   "kani_quick": [], "kani_thorough": [],
   "claim": "Proved for all (IVL, TIMEOUT, now, last_activity, last_ping, waiting) on the verbatim on_tick/process_data: no heartbeat outside the Data phase or on ZMTP/2.0; a PING goes out only if none is outstanding and at least IVL elapsed since the last activity, and is sent at the first tick where that holds; "
            "the connection is closed by on_tick only when a PING has been outstanding for at least TIMEOUT; every received PING is answered by exactly one PONG with the same context bytes, in order; any inbound frame clears the outstanding-PING state (traffic keeps the connection alive). "
